@@ -35,7 +35,7 @@ pub struct Scn {
 pub struct C01;
 
 pub const N_CFG: usize = 8;
-const N_SHAPES: usize = 22;
+const N_SHAPES: usize = 24;
 const QNAMES: &[&str] = &[
     "www.example.", "example.", "WwW.ExAmPlE.", "nosuch.example.", "x.wild.example.", "alias.example.", "chain1.example.", "deep.sub.example.", "big.example.",
     "glue.test.", "deleg.glue.test.", "x.deleg.glue.test.", "y.glue.test.", "badns.example.", "badmx.example.", "badcname.example.", "badsrv.example.", "bada.example.", "badsoa.test.", "x.nosoa.test.", "nosoa.test.", "unloaded.test.", "failed.test.", "www.elsewhere.", ".",
@@ -148,6 +148,19 @@ pub fn base_message(i: usize) -> Vec<u8> {
             v
         }
         18 => sign(&wire::query_full(id, &qn, qt, wire::C_IN, 0, Some(1232)), wire::name("K.Example."), Alg::Sha256.name(), Some(10 + v % 23)),
+        // question-less requests that still carry pseudo-records
+        22 => {
+            let mut m = wire::Msg { id, flags: ((v % 3) as u16) << 11, ..Default::default() };
+            m.additional.push(wire::opt_rr([1232u16, 512, 4096][v % 3], (v % 3) as u8, if v % 2 == 0 { 0 } else { 0x8000 }, &[]));
+            wire::encode(&m)
+        }
+        23 => {
+            let mut m = wire::Msg { id, flags: 0, ..Default::default() };
+            if v % 2 == 1 {
+                m.additional.push(wire::opt_rr(1232, 0, 0, &[]));
+            }
+            sign(&wire::encode(&m), wire::name("k.example."), Alg::Sha256.name(), None)
+        }
         // answers larger than the negotiated size: big RRsets with a sweep of advertised sizes
         20 | 21 => {
             let (n, t) = [
@@ -315,8 +328,8 @@ impl Prop for C01 {
     type Scn = Scn;
     fn runs(tier: Tier) -> u64 {
         (match tier {
-            Tier::Quick => 176,
-            Tier::Thorough => 880,
+            Tier::Quick => 192,
+            Tier::Thorough => 960,
         }) * N_CFG as u64
     }
     fn gen(r: &mut SplitMix, tier: Tier, idx: u64) -> Scn {
@@ -368,7 +381,7 @@ impl Prop for C01 {
         format!("{file}|{masked}")
     }
     fn rule() -> String {
-        format!("one execution = one (request shape, server configuration) pair: {} shapes quick / 880 thorough (plain, EDNS with options and odd versions, big RRsets with swept payload sizes, TSIG-signed with known/unknown keys, truncated MACs and maximal 255-octet key/algorithm names, extra records in every section, compressed and mixed-case names, opcodes 0-15, QTYPE ANY/AXFR/IXFR/meta, QCLASS ANY/CH, NOTIFY/UPDATE-shaped, two questions, misplaced OPT/TSIG, header only) x {} configurations (empty catalog; loaded/NotYetLoaded/FailedToLoad entries; zones with malformed stored RDATA, missing or malformed SOA; key sets; RRL slip 1/2; payload 512/1232/65535); per pair, exhaustively: truncation to every length, at every offset substitution by 10 values, each header count set to 0/+1/0xffff, every RR's RDLENGTH set to 0..80, the advertised EDNS payload size set to every value 0..1400 (+ large ones), junk of 1/2/11/300 octets appended, tail duplicated, both transports; then seeded random pairs of those faults. Every pair is non-trivial and distinct by construction", 176, N_CFG)
+        format!("one execution = one (request shape, server configuration) pair: {} shapes quick / 960 thorough (plain, EDNS with options and odd versions, big RRsets with swept payload sizes, TSIG-signed with known/unknown keys, truncated MACs and maximal 255-octet key/algorithm names, extra records in every section, compressed and mixed-case names, opcodes 0-15, QTYPE ANY/AXFR/IXFR/meta, QCLASS ANY/CH, NOTIFY/UPDATE-shaped, two questions, misplaced OPT/TSIG, header only, question-less requests with OPT (odd versions) or TSIG) x {} configurations (empty catalog; loaded/NotYetLoaded/FailedToLoad entries; zones with malformed stored RDATA, missing or malformed SOA; key sets; RRL slip 1/2; payload 512/1232/65535); per pair, exhaustively: truncation to every length, at every offset substitution by 10 values, each header count set to 0/+1/0xffff, every RR's RDLENGTH set to 0..80, the advertised EDNS payload size set to every value 0..1400 (+ large ones), junk of 1/2/11/300 octets appended, tail duplicated, both transports; then seeded random pairs of those faults. Every pair is non-trivial and distinct by construction", 192, N_CFG)
     }
     fn assumptions() -> Vec<String> {
         vec![
